@@ -172,7 +172,54 @@ def validate_c01(ctx):
             ctx.disagree(f"translation validation: the generated {name} gives {got}, the Python function {want}", {"op": "srcval", "function": name, **cj})
 
 
-VALIDATORS = {"C01": validate_c01, "C02": validate_c02, "C05": validate_c05, "C13": validate_c13, "C17": validate_c17}
+def validate_c11(ctx):
+    from arim import model
+
+    rng = ctx.rng
+    lines, meta = [], []
+    for k in range(80 * ctx.scale):
+        dt = float([1e-8, 2e-8, 4e-8, 5e-8, 1 / 30e6, 1 / 3][k % 6] if k % 2 else rng.uniform(1e-8, 1e-7))
+        q = int(rng.integers(0, 150))
+        delay = float(q * dt) if k % 3 else float(q * dt + rng.uniform(0, 1) * dt)     # on a sample two times out of three
+        n, t0 = int(rng.integers(1, 6)), int(rng.integers(0, 4))
+        size = 170
+        resp = (np.arange(n) + 1.0).astype(complex)[None, :]
+        out = np.zeros((1, size), dtype=complex)
+        try:
+            model._timeshift_timedomain(resp, np.array([delay]), dt, t0, out)
+        except Exception:
+            continue
+        nz = np.flatnonzero(out[0])
+        if len(nz) != n or int(math_floor_guard(delay, dt)) - t0 < 0:
+            continue        # the window left the row (NumPy clips it): not the arithmetic under validation
+        want_start = int(nz[0])
+        # the caller's formula, evaluated by NumPy exactly as the source writes it
+        d_ = np.array([delay])
+        want_rem = float((d_ - np.floor(d_ / dt) * dt)[0])
+        lines.append(f"tswin {f2b(delay)} {f2b(dt)} {t0} {n}")
+        meta.append((want_start, n, want_rem, {"delay": delay, "dt": dt, "t0_idx": t0, "n": n}))
+    ans = ctx.drive_src(lines)
+    if ans is None:
+        return
+    for (start, n, rem, cj), a in zip(meta, ans):
+        ctx.count("translation_validated:_timeshift_timedomain")
+        try:
+            win, r_ = a[3:].split("/")
+            lo, hi = (int(v) for v in win.split(":"))
+            got = (lo, hi, b2f(r_))
+        except Exception:
+            got = None
+        if got is None or got[0] != start or got[1] != start + n or got[2] != rem:
+            ctx.disagree(f"translation validation: the generated window / remainder of the delay split give {got}, the Python code window start {start}, "
+                         f"length {n}, remainder {rem}", {"op": "srcval", "function": "_timeshift_timedomain / delays_remainder", **cj})
+
+
+def math_floor_guard(delay, dt):
+    import math
+    return math.floor(delay / dt)
+
+
+VALIDATORS = {"C11": validate_c11, "C01": validate_c01, "C02": validate_c02, "C05": validate_c05, "C13": validate_c13, "C17": validate_c17}
 
 
 def validate(ctx, pid):
